@@ -50,6 +50,11 @@ type ftCase struct {
 	Wrap    bool   `json:"storage_wrapper"`
 	Pos     int    `json:"fault_position"`
 	Kind    string `json:"fault_kind,omitempty"`
+	// further faults in the same call: every operation from Pos on fails (a storage that stays down), or a
+	// second single failing operation Pos2 > Pos of kind Kind2 (only reached when the call survived the first)
+	Sticky bool   `json:"storage_stays_down,omitempty"`
+	Pos2   int    `json:"second_fault_position,omitempty"`
+	Kind2  string `json:"second_fault_kind,omitempty"`
 }
 
 // ftAgg collects engine-specific observations for the evidence file
@@ -93,9 +98,10 @@ type ftWorld struct {
 	beforeSnap  map[string][]byte
 	beforeRoots *types.RootCertificates
 
-	outcome string
-	fired   bool
-	flagged bool
+	outcome    string
+	fired      bool
+	firedKinds []string // kinds of all delivered faults, in order
+	flagged    bool
 }
 
 func (w *ftWorld) close() {
@@ -115,6 +121,12 @@ func (w *ftWorld) viol(key, what string) {
 		what = "the same call repeated, without a fault, after the faulted call had failed: " + what
 	}
 	desc := fmt.Sprintf("%s (flow %s, back end %s, storage wrapper %v, failing operation %d of the call, kind %q)", what, w.cs.Flow, w.cs.Backend, w.cs.Wrap, w.cs.Pos, w.cs.Kind)
+	if w.cs.Sticky {
+		desc += " [every later storage operation of the call failed as well]"
+	}
+	if w.cs.Pos2 > 0 {
+		desc += fmt.Sprintf(" [second failing operation %d, kind %q]", w.cs.Pos2, w.cs.Kind2)
+	}
 	if w.cs.Pos == 0 {
 		// the reference run is silent on the pinned tree (checked at every run, the case list is
 		// fixed), so a rejection here is the library reporting success for something that is not
@@ -239,6 +251,16 @@ func (w *ftWorld) after(cerr error, fired bool) {
 		w.agg.effects[fmt.Sprintf("%s|pos=%d|%s", w.cs.Flow, w.cs.Pos, e)]++
 		w.agg.mu.Unlock()
 	}
+}
+
+// firedOtherThanNotFound: one of the delivered faults says nothing about absence
+func (w *ftWorld) firedOtherThanNotFound() bool {
+	for _, k := range w.firedKinds {
+		if k != recstore.FaultNotFound {
+			return true
+		}
+	}
+	return false
 }
 
 func ftTypeOf(k string) string {
@@ -659,6 +681,12 @@ func ftRotateNodeFlow(byNodeID bool) func(w *ftWorld) ftInst {
 				if len(inner.EncryptedNodeCredentials) == 0 {
 					// FetchNodeCredentials treated a not-found as "unauthorized": nothing is handed out
 					w.outcome = "success-empty"
+					if w.fired && w.firedOtherThanNotFound() {
+						// a storage operation failed with an error that says nothing about absence, and the
+						// call swallowed it: the rotation did not complete, no error says so
+						w.viol("success-without-result", fmt.Sprintf("RotateNodeCredentials reported success although a storage operation failed (%s): the response holds no credentials and the rotation did not complete", w.cs.Kind))
+						return
+					}
 					if w.fired {
 						w.agg.note("rotation_success_wrapping_an_unauthorized_empty_fetch_response|%s|pos=%d|kind=%s", w.cs.Flow, w.cs.Pos, w.cs.Kind)
 					}
@@ -851,7 +879,7 @@ func ftDialFlow(withToken bool) func(w *ftWorld) ftInst {
 	}
 }
 
-func ftNodeHandleFlow(withToken bool) func(w *ftWorld) ftInst {
+func ftNodeHandleFlow(withToken, withPrev bool) func(w *ftWorld) ftInst {
 	return func(w *ftWorld) ftInst {
 		var n *world.Node
 		var resp *types.FetchNodeCredentialsResponse
@@ -871,6 +899,19 @@ func ftNodeHandleFlow(withToken bool) func(w *ftWorld) ftInst {
 				var err error
 				if n, err = world.NewNodeOn(w.nstore, w.cs.Wrap, tok); err != nil {
 					return err
+				}
+				if withPrev {
+					// the credentials of a node that replaces older ones: they retain the older encryption key
+					// pair (what SetPreviousEncryptionKey records before a rotation), and handling the answer
+					// has to persist that too
+					old, err := types.NewNodeCredentials(w.ctx, w.nstore, nodeenrollment.WithSkipStorage(true))
+					if err != nil {
+						return err
+					}
+					old.ServerEncryptionPublicKeyBytes, old.ServerEncryptionPublicKeyType = world.NewX25519().Pub, types.KEYTYPE_X25519
+					if err := n.Creds.SetPreviousEncryptionKey(old); err != nil {
+						return err
+					}
 				}
 				req, err := n.FetchRequest()
 				if err != nil {
@@ -1037,8 +1078,9 @@ var ftFlows = []*ftFlow{
 	{name: "gencerts-nodeid", nodeID: true, mk: ftGenCertsFlow(true)},
 	{name: "node-new-creds", mk: ftNodeNewFlow(false)},
 	{name: "node-new-creds-token", mk: ftNodeNewFlow(true)},
-	{name: "node-handle-response", mk: ftNodeHandleFlow(false)},
-	{name: "node-handle-response-token", mk: ftNodeHandleFlow(true)},
+	{name: "node-handle-response", mk: ftNodeHandleFlow(false, false)},
+	{name: "node-handle-response-token", mk: ftNodeHandleFlow(true, false)},
+	{name: "node-handle-response-previous-key", mk: ftNodeHandleFlow(false, true)},
 	{name: "node-dial-enroll", mk: ftDialFlow(false)},
 	{name: "node-dial-enroll-token", mk: ftDialFlow(true)},
 }
@@ -1098,9 +1140,13 @@ func ftRunCase(c *engine.Ctx, agg *ftAgg, cs ftCase) (int, bool) {
 	var cerr error
 	w.frec.Reset()
 	w.frec.Arm(cs.Pos, cs.Kind)
+	if cs.Sticky || cs.Pos2 > 0 {
+		w.frec.ArmMore(cs.Pos2, cs.Kind2, cs.Sticky)
+	}
 	p, st := engine.Guard(func() { cerr = inst.call() })
 	fired, count := w.frec.Fired(), w.frec.Count()
 	w.fired = fired
+	w.firedKinds = w.frec.FiredKinds()
 	ops := w.frec.Ops()
 	w.frec.Arm(0, "")
 	desc := engine.J(cs)
@@ -1152,6 +1198,18 @@ func ftRunCase(c *engine.Ctx, agg *ftAgg, cs ftCase) (int, bool) {
 	}
 	r.Count("fault_fired", 1)
 	r.Count("flow_fired:"+cs.Flow, 1)
+	if cs.Sticky {
+		r.Count("storage_stays_down_runs", 1)
+		if len(w.firedKinds) > 1 {
+			r.Count("storage_stays_down_runs:more_than_one_operation_failed", 1)
+		}
+	}
+	if cs.Pos2 > 0 {
+		r.Count("second_fault_runs", 1)
+		if len(w.firedKinds) > 1 {
+			r.Count("second_fault_runs:both_delivered", 1)
+		}
+	}
 	r.Count("kind_"+cs.Kind, 1)
 	if w.outcome != "" {
 		r.Count("outcome_"+w.outcome, 1)
@@ -1184,9 +1242,9 @@ func ftRunCase(c *engine.Ctx, agg *ftAgg, cs ftCase) (int, bool) {
 func runFaults(c *engine.Ctx) engine.Result {
 	r := c.R
 	res := engine.Result{
-		Rule: "case = (flow, back end, storage wrapper on/off, position p of the single failing storage operation, fault kind); for every flow a fault-free reference run (executed twice, on two freshly built worlds, counts compared) counts the n storage operations of the call under test, then every p in 1..n x {generic, notfound, cancelled} is executed on a freshly built identical world (one bystander node enrolled in each). non-trivial = the armed fault was delivered to the library (a run whose call ended before position p is counted as fault_not_fired); distinct by descriptor. Oracle reads the inner storage with the harness's wrappers: error => no result object; success => result equal to what storage holds; record created through a token => token record gone; failed call => bystander records byte-identical.",
+		Rule: "case = (flow, back end, storage wrapper on/off, position p of the first failing storage operation, fault kind[, storage stays down from p on | second failing position p2 > p and its kind]); for every flow a fault-free reference run (executed twice, on two freshly built worlds, counts compared) counts the n storage operations of the call under test, then every p in 1..n x {generic, notfound, cancelled} is executed on a freshly built identical world (one bystander node enrolled in each); then every p < n x kind with every later operation failing too, and - wherever a single-fault run went on for m > p operations - every p2 in p+1..m x {generic, notfound, cancelled, duplicate}. non-trivial = the armed fault was delivered to the library (a run whose call ended before position p is counted as fault_not_fired); distinct by descriptor. Oracle reads the inner storage with the harness's wrappers: error => no result object; success => result equal to what storage holds; record created through a token => token record gone; failed call => bystander records byte-identical.",
 		Assumptions: []string{
-			"single fault per call; the failing operation does not touch the inner storage (no partial writes)",
+			"at most two distinct failing operations per call, or one failing operation and all that follow it; a failing operation does not touch the inner storage (no partial writes)",
 			"flows looked up by node ID run on the harness's ordered NodeIdLoader only (the file back end has no lookup by node ID)",
 			"a success that hands out nothing (the empty 'unauthorized' fetch response after a not-found) carries no durability obligation",
 			"roots removed by a failed WithReinitializeRoots call are documented behaviour and not flagged; a failed call that leaves a new record of the calling node itself is recorded as an observation only",
@@ -1276,7 +1334,23 @@ func runFaults(c *engine.Ctx) engine.Result {
 			}
 		}
 	}
+	single := len(cases)
+	// a storage that stays down: every operation from p on fails (p = n is the single fault again)
+	for _, g := range groups {
+		if !g.ok {
+			continue
+		}
+		for p := 1; p < g.n; p++ {
+			for _, k := range recstore.FaultKinds {
+				cs := g.cs
+				cs.Pos, cs.Kind, cs.Sticky = p, k, true
+				cases = append(cases, cs)
+			}
+		}
+	}
 	r.Set("configurations", len(groups))
+	r.Set("single_fault_cases", single)
+	r.Set("storage_stays_down_cases", len(cases)-single)
 	r.Set("fault_cases", len(cases))
 	r.Set("back_ends", backends)
 	if len(cases) > 0 {
@@ -1285,7 +1359,30 @@ func runFaults(c *engine.Ctx) engine.Result {
 		r.Sample(cases[len(cases)*2/5])
 		r.Sample(cases[len(cases)-1])
 	}
-	engine.ForEach(len(cases), engine.Workers(), func(i int) { ftRunCase(c, agg, cases[i]) })
+	counts := make([]int, len(cases))
+	engine.ForEach(len(cases), engine.Workers(), func(i int) { counts[i], _ = ftRunCase(c, agg, cases[i]) })
+	// a second failing operation: wherever the call went on after the first fault (the fault was tolerated or
+	// taken for absence), every later operation of that run x kind fails as well, on a fresh identical world
+	var second []ftCase
+	for i := 0; i < single; i++ {
+		cs := cases[i]
+		if counts[i] <= cs.Pos {
+			continue
+		}
+		for p2 := cs.Pos + 1; p2 <= counts[i]; p2++ {
+			for _, k2 := range append(append([]string{}, recstore.FaultKinds...), recstore.FaultDuplicate) {
+				c2 := cs
+				c2.Pos2, c2.Kind2 = p2, k2
+				second = append(second, c2)
+			}
+		}
+	}
+	r.Set("second_fault_cases", len(second))
+	if len(second) > 0 {
+		r.Sample(second[0])
+		r.Sample(second[len(second)/2])
+	}
+	engine.ForEach(len(second), engine.Workers(), func(i int) { ftRunCase(c, agg, second[i]) })
 	finish()
 
 	for _, fl := range ftFlows {
@@ -1297,6 +1394,8 @@ func runFaults(c *engine.Ctx) engine.Result {
 	r.Require("outcome_success-persisted", 10)
 	r.Require("bystander_checked_after_failed_call", 100)
 	r.Require("token_clause_checked", 20)
+	r.Require("storage_stays_down_runs:more_than_one_operation_failed", 20)
+	r.Require("second_fault_runs:both_delivered", 20)
 	for _, k := range recstore.FaultKinds {
 		r.Require("kind_"+k, 60)
 	}
